@@ -339,6 +339,9 @@ class Task:
                 if re.search(r'\.(single_top_level_call|no_recursive_call)\.\d+$', nm) and st != "SUCCESS":
                     # restrictions of goto-instrument --dfcc on the shape of the harness / the enforced function, not obligations of the code
                     res["why"] = "DFCC restriction violated by the task set-up (%s): tool limit, never a verdict" % nm.rsplit(".", 2)[-2]; res["status"] = "undecided"; return res
+                if re.search(r'\.unwind\.\d+$', nm) and st != "SUCCESS":
+                    # the stated bound does not cover this loop on some input: a limit of the bounded stand-in, not an obligation of the code
+                    res["why"] = "unwinding assertion %s fails: the task's unwinding bound is too small for some admitted input (tool limit, never a verdict)" % nm; res["status"] = "undecided"; return res
                 nobl += 1; names.append(nm)
                 if st == "SUCCESS": ndis += 1
                 elif st == "FAILURE": failed.append({"property": nm, "description": desc, "location": p.get("sourceLocation", {})})
